@@ -68,6 +68,33 @@ def big_index_events(rec, iindex, tier, seed):
     return {"sizes": sizes, "constants": consts}
 
 
+def near_tie_events(rec, iindex, tier, seed):
+    """the library's own choice of common value when the two most frequent values are one cell apart or level, for every
+    cell count up to 80 (a count reconstructed through a rounded ratio is off by one for a few sizes only)"""
+    rnd = random.Random(seed)
+    for n in range(2, 81 if tier == "quick" else 201):
+        for lead in (1, 0):
+            hi, lo = (n + lead + 1) // 2, n - (n + lead + 1) // 2
+            if lo < 1:
+                continue
+            shape = (n,) if (n % 2 or rnd.random() < 0.5) else (n // 2, 2)
+            a, b = rnd.sample([0, 1, 2, 5], 2)
+            if lead and a > b:
+                a, b = b, a                      # the runner-up has the larger key
+            cells = [a] * hi + [b] * lo
+            rnd.shuffle(cells)
+            dense = np.array(cells, dtype=object).reshape(shape)
+            for start in (a, b, 7):
+                idx = canonical(iindex, dense, start)
+                which = rnd.choice(["shift", "append", "filtered"])
+                if which == "shift":
+                    rec.shift_common(idx)
+                elif which == "append":
+                    rec.append(idx, canonical(iindex, np.zeros((0,) + shape[1:], dtype=object), 7))
+                else:
+                    rec.filtered(idx, [True] * shape[0])
+
+
 class Chains:
     def __init__(self, iindex, column_stack, seed):
         self.rnd = random.Random(seed)
@@ -215,6 +242,8 @@ class Chains:
         rnd = self.rnd
         au = rnd.random() < 0.2
         m = self._mapping(idx, U, unique=au)
+        if rnd.random() < 0.1:
+            m = {}                         # an explicit mapping that maps nothing is the identity, not "no mapping given"
         return self.rec.reindexed(idx, m, copy=rnd.random() < 0.7, shift=rnd.random() < 0.8, assume_unique=au)
 
     def op_reindexed_default(self, idx, U):
